@@ -26,6 +26,8 @@ func Corpus() []*Schema {
 		{Name: "Scalars", Fields: append(allKinds("s", 1, "opt", ScalarKinds), F{"s_enum", 16, "enum:Color", "opt"})},
 		{Name: "Repeated", Fields: append(append(allKinds("r", 1, "packed", numericKinds), allKinds("r", 14, "rep", []string{"string", "bytes"})...), F{"r_enum", 16, "enum:Color", "packed"})},
 		{Name: "Unpacked", Fields: append(allKinds("u", 1, "rep", numericKinds), F{"u_enum", 16, "enum:Color", "rep"})},
+		// a second message with every packed kind: whatever a template emits "once, where needed" appears twice in a package
+		{Name: "Repeated2", Fields: append(allKinds("q", 1, "packed", numericKinds), F{"q_enum", 16, "enum:Color", "packed"}, F{"q_f", 17, "float", "opt"}, F{"q_d", 18, "double", "opt"})},
 		{Name: "Nest", Fields: []F{{"leaf", 1, "msg:Scalars", "opt"}, {"leaves", 2, "msg:Scalars", "rep"}, {"self", 3, "msg:Nest", "opt"}, {"selves", 4, "msg:Nest", "rep"},
 			{"other", 5, "msg:Peer", "opt"}, {"id", 6, "int32", "opt"}, {"big1", 15, "int32", "opt"}, {"big2", 16, "int32", "opt"}, {"big3", 2047, "string", "opt"}, {"big4", 2048, "string", "opt"},
 			{"big5", 67108864, "uint64", "opt"}, {"big6", 536870911, "sint32", "opt"}}},
@@ -103,6 +105,17 @@ func Corpus() []*Schema {
 		Dep: &Schema{ID: "importsdep", Syntax: "proto3", Messages: []M{{Name: "D", Fields: []F{{"n", 1, "int32", "opt"}, {"s", 2, "string", "opt"}}}}, Enums: []E{{Name: "Shade", Values: []int32{0, 1, 5}}}},
 		Messages: []M{{Name: "User", Fields: []F{{"id", 1, "int32", "opt"}, {"d", 2, "dep:D", "opt"}, {"ds", 3, "dep:D", "rep"}, {"shade", 4, "depenum:Shade", "opt"}, {"shades", 5, "depenum:Shade", "packed"},
 			{"by", 6, "dep:D", "map:string"}, {"one", 7, "dep:D", "oneof:pick"}, {"other", 8, "depenum:Shade", "oneof:pick"}}}}})
+	// ONE Go package split over two .proto files (both generated in one request): types of the other file are used in
+	// every position, and both files carry the features for which the generator emits per-file / per-message helpers
+	// (packed enum lists, implicit float fields, required fields, oneofs, maps)
+	cs = append(cs, &Schema{ID: "samepkg", Syntax: "proto3", GenDep: true, SamePkg: true, Enums: []E{color},
+		Dep: &Schema{ID: "samepkgdep", Syntax: "proto3", Enums: []E{{Name: "Shade", Values: []int32{0, 1, 5}}},
+			Messages: []M{{Name: "Money", Fields: []F{{"units", 1, "int64", "opt"}, {"ratio", 2, "double", "opt"}, {"shades", 3, "enum:Shade", "packed"}, {"f", 4, "float", "opt"}}},
+				{Name: "Tally", Fields: []F{{"shades", 1, "enum:Shade", "packed"}, {"by", 2, "float", "map:string"}, {"a", 3, "int32", "oneof:pick"}, {"b", 4, "msg:Money", "oneof:pick"}}}}},
+		Messages: []M{{Name: "Invoice", Fields: []F{{"id", 1, "int32", "opt"}, {"total", 2, "dep:Money", "opt"}, {"lines", 3, "dep:Money", "rep"}, {"shade", 4, "depenum:Shade", "opt"},
+			{"shades", 5, "depenum:Shade", "packed"}, {"by", 6, "dep:Money", "map:string"}, {"one", 7, "dep:Money", "oneof:pick"}, {"other", 8, "depenum:Shade", "oneof:pick"},
+			{"colors", 9, "enum:Color", "packed"}, {"ratio", 10, "float", "opt"}}},
+			{Name: "Refund", Fields: []F{{"colors", 1, "enum:Color", "packed"}, {"of", 2, "dep:Tally", "opt"}, {"ratio", 3, "double", "opt"}}}}})
 	// a foreign message type that only its runtime knows how to marshal (for gogo: plain protoc-gen-gogo output with
 	// XXX_Size / XXX_Marshal but no Marshal() / MarshalTo()), in the middle and at the end of the message, in a list,
 	// a map and a oneof
@@ -161,6 +174,16 @@ func Corpus() []*Schema {
 	extrep.Messages = []M{{Name: "Base", Fields: []F{{"id", 1, "int32", "opt"}}, Ranges: [][2]int32{{100, 200}}},
 		{Name: "H", Fields: []F{{"note", 1, "string", "opt"}}, Ext: rxs}}
 	cs = append(cs, extrep)
+	// messages that share a SHORT name in different scopes and differ in what the generator decides per message
+	// (required fields, oneofs, maps, packed enums, implicit floats): Order.Item has required fields, Refund.Item none, …
+	cs = append(cs, &Schema{ID: "shortnames", Syntax: "proto2", Enums: []E{color}, Messages: []M{
+		{Name: "Order", Fields: []F{{"item", 1, "msg:Order.Item", "opt"}, {"items", 2, "msg:Order.Item", "rep"}, {"part", 3, "msg:Order.Part", "opt"}},
+			Nested: []M{{Name: "Item", Fields: []F{{"sku", 1, "string", "req"}, {"qty", 2, "int32", "req"}, {"note", 3, "string", "opt"}}},
+				{Name: "Part", Fields: []F{{"n", 1, "int32", "opt"}}}}},
+		{Name: "Refund", Fields: []F{{"item", 1, "msg:Refund.Item", "opt"}, {"part", 2, "msg:Refund.Part", "opt"}, {"parts", 3, "msg:Refund.Part", "rep"}},
+			Nested: []M{{Name: "Item", Fields: []F{{"reason", 1, "string", "opt"}, {"kinds", 2, "enum:Color", "packed"}}},
+				{Name: "Part", Fields: []F{{"id", 1, "int64", "req"}, {"a", 2, "int32", "oneof:pick"}, {"b", 3, "string", "oneof:pick"}}}}},
+		{Name: "Item", Fields: []F{{"top", 1, "bool", "req"}, {"by", 2, "int32", "map:string"}}}}})
 	// two messages whose short names coincide when lower-cased: one output file name for both with
 	// filepermessage=true (open finding B15)
 	cs = append(cs, &Schema{ID: "samename", Syntax: "proto3", Messages: []M{{Name: "Outer", Fields: []F{{"a", 1, "int32", "opt"}},
